@@ -11,13 +11,15 @@ LIST_CLASS = "aListOfInstances"
 
 # classes of deviation from the properties' wording found in /repo (see the *_refuted theorems of Properties/C10.v, C11.v)
 DEV_USES = "uses-exposes-all"                 # C10 (+C11 through declared type names): `uses X` makes every symbol of X and of X's ancestors visible, not only X's constants and types
-DEV_OWN = "own-class-via-method-table"        # C10+C11: a member of the ENCLOSING class after a dot is looked up / listed through the method's table
 DEV_FWD = "forward-method-in-chain"           # C10+C11: `self.Later.x` in a method declared before `Later`: the prefix has no type
-DEV_MODCALL = "call-on-module-qualifier"      # C10+C11: `aModule.F().x`: a call after a module qualifier has no type
-DEV_DECLNAME = "const-type-declared-name"     # C10: the declared name of a constant / type yields no link
-DEV_RET = "return-type-as-member-name"        # C10: a function's return type is looked up like a member's declared name (all ancestors, no `uses`)
-ALL_DEVS = [DEV_USES, DEV_OWN, DEV_FWD, DEV_MODCALL, DEV_DECLNAME, DEV_RET]
-DEVS_OF = {"C10": [DEV_USES, DEV_OWN, DEV_FWD, DEV_MODCALL, DEV_DECLNAME, DEV_RET], "C11": [DEV_USES, DEV_OWN, DEV_FWD, DEV_MODCALL]}
+ALL_DEVS = [DEV_USES, DEV_FWD]
+DEVS_OF = {"C10": [DEV_USES, DEV_FWD], "C11": [DEV_USES, DEV_FWD]}
+# repaired in /repo (known_findings.json `fixed`): their witness workspaces stay as regression cases that must pass the oracle
+FIX_OWN = "own-class-via-method-table"        # 945552f
+FIX_MODCALL = "call-on-module-qualifier"      # 4a7e667
+FIX_DECLNAME = "const-type-declared-name"     # efb255c
+FIX_RET = "return-type-as-member-name"        # 7983abd
+REGRESSIONS = {"C10": [FIX_OWN, FIX_MODCALL, FIX_DECLNAME, FIX_RET], "C11": [FIX_OWN, FIX_MODCALL]}
 
 
 # =============================================================================================
@@ -240,12 +242,7 @@ class Sem:
     def definition_member(self, c, m, d, name):
         if self.find(d) is None:
             return []
-        out = []
-        if DEV_OWN in self.devs and d.upper() == c.upper():
-            v = last(self.vars_of(c, m), name)
-            if v:
-                out.append((self.find(c).name, v.tag))
-        return out + self.members_all(d, name)
+        return self.members_all(d, name)
 
     # ---- static types: (kind C|M, spelled name) ----
     def type_class(self, c, m, t, depth=0):
@@ -288,13 +285,8 @@ class Sem:
     def next_class(self, c, m, left, item):
         name, call = item
         kind, d = left
-        if call and kind == "M" and DEV_MODCALL in self.devs:
-            return None
         if self.find(d) is None:
             return None
-        own = self.find(c)
-        if DEV_OWN in self.devs and own is not None and d == own.name:
-            return self.hit_class(c, m, self.lookup(c, m, name, False, during=True))
         return self.hit_class(c, m, self.chain_hit(d, name, c, m, during=(d.upper() == c.upper())))
 
     def static_class(self, c, m, items):
@@ -332,8 +324,7 @@ class Sem:
     def complete_member(self, c, m, d):
         if self.find(d) is None:
             return []
-        first = self.vars_of(c, m) if (DEV_OWN in self.devs and d.upper() == c.upper()) else ()
-        return sorted(n for k, n in self.listing(d, first) if k in "fpu")
+        return sorted(n for k, n in self.listing(d) if k in "fpu")
 
     def complete_plain(self, c, m):
         return sorted(n for k, n in self.listing(c, self.vars_of(c, m)) if k in "vc")
@@ -357,25 +348,6 @@ class Sem:
                 return ok
             t = self.visible(c, m, name)
             return [[t] if t else []]
-        if f[0] == "R":
-            c, m, name = f[1], f[2], f[3]
-            ok = []
-            if self.is_special(name):
-                e = self.find(name)
-                ok = [[]] + ([[(e.name, 0)]] if e is not None else [])
-            else:
-                t = Sem(self.ws, self.devs - {DEV_RET}).visible(c, m, name)
-                ok = [[t] if t else []]
-            if DEV_RET in self.devs:
-                # every table of the method's chain that knows the name, nearest first; no `uses`
-                hits = []
-                v = last(self.vars_of(c, m), name)
-                if v:
-                    hits.append((self.find(c).name, v.tag))
-                for a in self.ancestors(c):
-                    hits += [self.target(h) for h in [self.table_hit(a, name)] if h]
-                ok = [hits]
-            return ok
         if f[0] == "M":
             c, m, items, name = f[1], opt(f[2]), parse_items(f[3]), f[4]
             st = self.static_class(c, m, items)
@@ -385,8 +357,6 @@ class Sem:
             return [self.definition_member(c, mn, c, mn)]
         if f[0] == "G":
             c, kind, name = f[1], f[2], f[3]
-            if kind in "ct" and DEV_DECLNAME in self.devs:
-                return [[]]
             return [self.members_all(c, name)]
         if f[0] == "X":
             c, m, items = f[1], opt(f[2]), parse_items(f[3])
@@ -914,8 +884,7 @@ class Renderer:
                 cur += ")"
             if d.kind == "u":
                 cur += " return "
-                self.ident_queries(stem, len(lines), len(cur), d.type[1], "R~%s~%s~%s" % (c, m, d.type[1]))
-                cur += d.type[1]
+                cur = self.type_ref(stem, c, m, lines, cur, d.type)     # a plain type reference inside the method
             if r.random() < 0.1:
                 cur += " override"
             lines.append(cur)
@@ -1099,19 +1068,19 @@ def witness_workspaces(pid="C10"):
                         mk("c", "aLib", "aLibBase", (), [], []),
                         mk("c", "aLibBase", None, (), [("t", "tBase", ("n", "aUser"))], [])],
                        {("aUser", "Run"): [("dangling", I("f"))]})
-    w[DEV_OWN] = ([base(), mid(),
+    w[FIX_OWN] = ([base(), mid(),
                    mk("c", "aLeaf", "aMid", (), [("f", "Fb", ("n", "int4")), ("p", "Run", None)], [("Run", [("Fa", ("n", "int4"))], [("Fb", ("n", "aBase"))])])],
                   {("aLeaf", "Run"): [("chain", I("self", "Fa")), ("chain", I("self", "Fb")), ("dangling", I("self"))]})
     w[DEV_FWD] = ([mk("c", "aNode", None, (), [("f", "Val", ("n", "int4")), ("p", "First", None), ("u", "Later", ("n", "aNode")), ("p", "Last", None)],
                       [("First", [], []), ("Later", [], []), ("Last", [], [])])],
                   {("aNode", "First"): [("chain", I("self", "Later", "Val")), ("dangling", I("self", "Later"))],
                    ("aNode", "Last"): [("chain", I("self", "Later", "Val")), ("dangling", I("self", "Later"))]})
-    w[DEV_MODCALL] = ([mk("c", "aUser", None, ("aModUtil",), [("p", "Run", None)], [("Run", [], [])]),
+    w[FIX_MODCALL] = ([mk("c", "aUser", None, ("aModUtil",), [("p", "Run", None)], [("Run", [], [])]),
                        mk("m", "aModUtil", None, (), [("u", "Make", ("n", "aUser"))], [("Make", [], [])])],
                       {("aUser", "Run"): [("chain", I("aModUtil", "Make", "Run")), ("chain", I("aModUtil", "Make()", "Run")),
                                           ("dangling", I("aModUtil", "Make()"))]})
-    w[DEV_DECLNAME] = ([mk("c", "aDecl", None, (), [("c", "cA", None), ("t", "tA", ("n", "int4")), ("f", "Fa", ("n", "int4"))], [])], {})
-    w[DEV_RET] = ([mk("c", "aUser", None, ("aLib",), [("u", "Make", ("n", "tLib"))], [("Make", [], [])]),
+    w[FIX_DECLNAME] = ([mk("c", "aDecl", None, (), [("c", "cA", None), ("t", "tA", ("n", "int4")), ("f", "Fa", ("n", "int4"))], [])], {})
+    w[FIX_RET] = ([mk("c", "aUser", None, ("aLib",), [("u", "Make", ("n", "tLib"))], [("Make", [], [])]),
                    mk("c", "aLib", None, (), [("t", "tLib", ("n", "int4"))], [])], {})
     return w
 
@@ -1140,11 +1109,26 @@ def replay_witnesses(ctx, pid, kinds):
         ctx.known("%s: %s reproduces on its witness" % (f.get("id"), cls))
 
 
+def replay_regressions(ctx, pid, kinds):
+    """the witnesses of the repaired defects must satisfy the statement itself (no deviation allowed)"""
+    hb = diff.Engines.harness()
+    for cls in REGRESSIONS[pid]:
+        case = witness_case(cls, kinds)
+        out = canon(core.run_lines(hb, "sem", [case.line()], shards=1)[0])
+        bad = check_case(case, out)
+        if bad:
+            path = core.write_replay(ctx.pid, ctx.seed, {"engine": "sem", "case": case.line(), "case_readable": describe(case.line()),
+                                                          "observed": out, "expected": bad[0][1],
+                                                          "note": "regression case of the repaired defect `%s` (known_findings.json fixed)" % cls})
+            raise core.Violation(bad[0][1], path, True)
+
+
 def gen_cases(ctx, kinds):
     rng = random.Random(ctx.seed)
     n = 240 if ctx.quick else 5000
     cases, hist = [], {}
-    for cls in DEVS_OF["C10" if kinds == "D" else "C11"]:
+    pid = "C10" if kinds == "D" else "C11"
+    for cls in DEVS_OF[pid] + REGRESSIONS[pid]:
         cases.append(witness_case(cls, kinds).line())
     for _ in range(n):
         case, h = gen_case(rng, kinds)
